@@ -16,7 +16,7 @@ LEVEL = "proof"
 ASSUMPTIONS = [
     "C12: 'equality coincides with equality of thumbprints' is proved as: equality is decided by the thumbprint input's members (C12_eql_spec, C12_input) and is an equivalence; that equal inputs dump to equal text and that distinct inputs hash differently (dump injectivity, SHA collision-freeness) are NOT proved -- the correspondence compares thumbprints of equal/unequal pairs",
     "C12: SHA-1/2 are the Gallina implementations of coq/Crypto/Sha.v (validated on FIPS vectors and by this correspondence against OpenSSL)",
-    "C12: the jose/openssl.h conversions are exercised on the implementation (round trip through OpenSSL keys) with an implementation-only oracle; their Gallina model is listed as future work in DESIGN.md",
+    "C12: the jose/openssl.h conversions are modelled in coq/Jwk/Conv.v with the OpenSSL key object abstracted to a record of numbers; the OpenSSL / libc / jansson behaviours the model ASSUMES are listed as (O1)-(O9), (J1) at the top of that file (BN_bin2bn / BN_bn2bin conventions, RSA_set0_* requiring complete groups, EVP_PKEY set1/get0 handing back the same object, EC_POINT_set_affine_coordinates reducing mod p, raw HMAC key retrieval); EC_KEY_check_key is a Section variable about which nothing is assumed (the extracted driver uses the check that accepts everything: the correspondence offers keys OpenSSL accepts, or keys refused before that check); agreement is checked on every osslrt line of the run",
 ]
 
 REQ = {"oct": ["k"], "RSA": ["e", "n"], "EC": ["crv", "x", "y"]}
